@@ -6,7 +6,6 @@ theorem unbound_metavar_errors (mt : Meta) (assoc : List (Nat × Nat)) (id : Nat
     (d : Data) (fb : Bool) (k : Kind)
     (hm : mt.look (identName fs) = some k) (hu : d.lookMv (identName fs) = none) :
     ∃ e, replaceV mt assoc (.ptr "ast.Ident" id fs) d fb = .error e := by
-  simp only [replaceV, ignoredPtr, hm, hu]
-  exact ⟨_, rfl⟩
+  simp [replaceV, ignoredPtr, hm, hu]
 
 end Gopatch.C03
